@@ -93,10 +93,17 @@ def load(moment, X, y, g, c):
 class FixedPredictor:
     """A 'classifier' that ignores X and returns a prescribed vector (in a chosen container)."""
 
-    def __init__(self, vec, container="ndarray", hostile_kind="reversed"):
+    def __init__(self, vec, container="ndarray", hostile_kind="reversed", out_dtype=None):
         self.vec, self.container, self.hostile_kind = np.asarray(vec, dtype=float), container, hostile_kind
+        self.out_dtype = out_dtype  # hard 0/1 predictions in the dtype a classifier would return (that of its training labels)
 
     def __call__(self, X):
+        out = self._raw(X)
+        if self.out_dtype is None:
+            return out
+        return out.astype(self.out_dtype)
+
+    def _raw(self, X):
         if self.container == "series":
             return pd.Series(self.vec)
         if self.container == "col":
@@ -174,3 +181,6 @@ def align_index(moment, kind, ds, ratio, rng, K=4, tol=1e-9):
 
 def lam_series(moment, lam_by_entry):
     return pd.Series([float(lam_by_entry.get(e, 0.0)) for e in moment.index], index=moment.index, dtype=float)
+
+
+HARD_DTYPES = [None, None, "int64", "uint8", "bool", "int8", "float32"]
